@@ -125,7 +125,7 @@ def merge(total, res):
     for k in ('paths', 'queries'):
         total[k] = total.get(k, 0) + res.get(k, 0)
     total.setdefault('cex', []).extend(res.get('cex', ()))
-    total.setdefault('inconclusive', []).extend(res.get('inconclusive', ()))
+    total.setdefault('inconclusive', []).extend(f'[{res.get("unit", "?")}] {m}' for m in res.get('inconclusive', ()))
     if len(total.setdefault('samples', [])) < 6:
         total['samples'].extend(res.get('samples', ())[:2])
     if len(total.setdefault('witnesses', [])) < 40:
@@ -293,7 +293,13 @@ def finish(pid, tier, seed, total, extra=None, max_replays=6):
     violations = []
     known_hits = []
     unreproduced = []
-    for c in cands[:max_replays]:
+    # a spread of the candidates (not just the first few) is replayed one by one
+    if len(cands) > max_replays:
+        step = len(cands) / max_replays
+        chosen = [cands[int(i * step)] for i in range(max_replays)]
+    else:
+        chosen = cands
+    for c in chosen:
         c = dict(c)
         c['property'] = pid
         path = write_replay(pid, c)
@@ -309,6 +315,21 @@ def finish(pid, tier, seed, total, extra=None, max_replays=6):
             unreproduced.append((path, f'[{c.get("what")}] {out}'))
             try:
                 os.remove(path)
+            except OSError:
+                pass
+    if cands and not violations and not known_hits and len(cands) > 1:
+        # state carried from one object to the next (caches, class-level rebinding) only shows in a history: replay the
+        # candidates as ONE sequence of calls in one fresh interpreter, as the exploring worker met them
+        seq = {'kind': 'sequence', 'property': pid, 'cases': [dict(c, property=pid) for c in cands[:40]],
+               'what': 'sequence of the counterexample inputs in one process'}
+        spath = write_replay(pid, seq)
+        ok, out = replay_file(spath)
+        if ok:
+            violations.append((spath, out))
+            unreproduced = []
+        else:
+            try:
+                os.remove(spath)
             except OSError:
                 pass
     inconclusive = list(total.get('inconclusive', ()))
